@@ -5,7 +5,8 @@ Require Import MPyC.Base MPyC.Field MPyC.Poly MPyC.Lagrange MPyC.Shamir MPyC.Zp 
 From Coq Require Import ZArith Znumtheory.
 Local Open Scope nat_scope.
 
-(** ** transfer — all three argument forms (bipartite lists, dict, pair list) *)
+(** ** transfer — all three argument forms (bipartite lists, dict, pair list), code after the
+    repairs 5a43ef0 (dict .get) and cb049a3 (int sender at a non-receiver) *)
 
 (** party j expects an object from i exactly when (i,j) is a designated arc ... *)
 Theorem C07_my_senders_arc :
@@ -14,45 +15,53 @@ Proof. exact my_senders_arc. Qed.
 Print Assumptions C07_my_senders_arc .
 
 (** ... and i sends to j exactly when j expects it (no receive without its send, no send
-    without its receive); [wf] = dict keys distinct, [Some l] = the dict lookup did not fail *)
+    without its receive), for EVERY party incl. parties that are not a key of a dict graph;
+    [wf] = dict keys distinct (always true of a Python dict) *)
 Theorem C07_transfer_matched :
-  forall (G : Graph) (i j : nat) (l : list nat),
-    wf G -> my_receivers G i = Some l -> (In j l <-> In i (my_senders G j)).
+  forall (G : Graph) (i j : nat),
+    wf G -> (In j (my_receivers G i) <-> In i (my_senders G j)).
 Proof. exact transfer_matched. Qed.
 Print Assumptions C07_transfer_matched .
 
 Theorem C07_transfer_wire_matched :
-  forall (G : Graph) (i j : nat) (l : list nat),
-    wf G -> transfer_sends G i = Some l -> (In j l <-> In i (transfer_recvs G j)).
+  forall (G : Graph) (i j : nat),
+    wf G -> (In j (transfer_sends G i) <-> In i (transfer_recvs G j)).
 Proof. exact transfer_wire_matched. Qed.
 Print Assumptions C07_transfer_wire_matched .
 
 (** each party returns exactly its designated senders' objects, in sender order *)
 Theorem C07_transfer_delivers :
-  forall (A : Type) (obj : nat -> A) (G : Graph) (j : nat) (l : list nat),
-    my_receivers G j = Some l -> transfer_result obj G j = Ok (map obj (my_senders G j)).
+  forall (A : Type) (obj : nat -> A) (G : Graph) (j : nat),
+    transfer_result obj G j = map obj (my_senders G j).
 Proof. exact @transfer_delivers. Qed.
 Print Assumptions C07_transfer_delivers .
 
 Theorem C07_transfer_delivers_bip :
   forall (A : Type) (obj : nat -> A) (Sd R : list nat) (j : nat),
-    (In j R -> transfer_result obj (Bip Sd R) j = Ok (map obj Sd)) /\
-    (~ In j R -> transfer_result obj (Bip Sd R) j = Ok []).
+    (In j R -> transfer_result obj (Bip Sd R) j = map obj Sd) /\
+    (~ In j R -> transfer_result obj (Bip Sd R) j = []).
 Proof. exact @transfer_delivers_bip. Qed.
 Print Assumptions C07_transfer_delivers_bip .
 
 Theorem C07_transfer_delivers_pairs :
   forall (A : Type) (obj : nat -> A) (g : list (nat * nat)) (j : nat),
-    transfer_result obj (Pairs g) j = Ok (map obj (map fst (filter (fun ab => snd ab =? j) g))).
+    transfer_result obj (Pairs g) j = map obj (map fst (filter (fun ab => snd ab =? j) g)).
 Proof. exact @transfer_delivers_pairs. Qed.
 Print Assumptions C07_transfer_delivers_pairs .
 
+(** dict form: every party, whether or not it is a key of the dict *)
 Theorem C07_transfer_delivers_dict :
   forall (A : Type) (obj : nat -> A) (d : list (nat * list nat)) (j : nat),
-    In j (map fst d) ->
-    transfer_result obj (Dict d) j = Ok (map obj (map fst (filter (fun ab => mem j (snd ab)) d))).
+    transfer_result obj (Dict d) j = map obj (map fst (filter (fun ab => mem j (snd ab)) d)).
 Proof. exact @transfer_delivers_dict. Qed.
 Print Assumptions C07_transfer_delivers_dict .
+
+(** a party that is not a key of the dict sends nothing *)
+Theorem C07_transfer_dict_missing_key_silent :
+  forall (d : list (nat * list nat)) (i : nat),
+    ~ In i (map fst d) -> my_receivers (Dict d) i = [] /\ transfer_sends (Dict d) i = [].
+Proof. exact transfer_dict_missing_key_silent. Qed.
+Print Assumptions C07_transfer_dict_missing_key_silent .
 
 (** a party without designated sender expects nothing (and by C07_transfer_delivers returns []) *)
 Theorem C07_transfer_nonreceiver :
@@ -61,41 +70,18 @@ Theorem C07_transfer_nonreceiver :
 Proof. exact transfer_nonreceiver. Qed.
 Print Assumptions C07_transfer_nonreceiver .
 
-(** [senders] an int: a receiver gets the object itself ... *)
+(** [senders] an int: a receiver gets the object itself, a non-receiver gets None *)
 Theorem C07_transfer_int_receiver :
   forall (A : Type) (obj : nat -> A) (s : nat) (R : list nat) (j : nat),
-    In j R -> transfer_result_int obj s R j = Ok (obj s).
+    In j R -> transfer_result_int obj s R j = Some (obj s).
 Proof. exact @transfer_int_receiver. Qed.
 Print Assumptions C07_transfer_int_receiver .
 
-(** ... but "non-receivers obtain None / all parties complete" is FALSE of the code as modelled,
-    for an int sender with restricted receivers (outdata[0] on an empty list) and for dict graphs
-    that omit a node (sender_receivers[self.pid]); 3-party witnesses (finding F-C07, replayed on
-    the implementation by the check). *)
-Theorem C07_transfer_int_nonreceiver_error :
+Theorem C07_transfer_int_nonreceiver_none :
   forall (A : Type) (obj : nat -> A) (s : nat) (R : list nat) (j : nat),
-    ~ In j R -> transfer_result_int obj s R j = IndexErr.
-Proof. exact @transfer_int_nonreceiver_error. Qed.
-Print Assumptions C07_transfer_int_nonreceiver_error .
-
-Theorem C07_transfer_dict_missing_key_error :
-  forall (A : Type) (obj : nat -> A) (d : list (nat * list nat)) (j : nat),
-    ~ In j (map fst d) -> transfer_result obj (Dict d) j = KeyErr.
-Proof. exact @transfer_dict_missing_key_error. Qed.
-Print Assumptions C07_transfer_dict_missing_key_error .
-
-Theorem C07_transfer_int_sender_refuted :
-  exists (s : nat) (R : list nat) (pid : nat), s < 3 /\ pid < 3 /\ (forall r, In r R -> r < 3) /\
-    ~ In pid R /\ transfer_result_int (fun i => i) s R pid = IndexErr.
-Proof. exact transfer_int_sender_refuted. Qed.
-Print Assumptions C07_transfer_int_sender_refuted .
-
-Theorem C07_transfer_dict_refuted :
-  exists (d : list (nat * list nat)) (pid : nat), wf (Dict d) /\ pid < 3 /\
-    (forall i j, arc (Dict d) i j -> i < 3 /\ j < 3) /\ arc (Dict d) 0 pid /\
-    transfer_result (fun i => i) (Dict d) pid = KeyErr.
-Proof. exact transfer_dict_refuted. Qed.
-Print Assumptions C07_transfer_dict_refuted .
+    ~ In j R -> transfer_result_int obj s R j = None.
+Proof. exact @transfer_int_nonreceiver_none. Qed.
+Print Assumptions C07_transfer_int_nonreceiver_none .
 
 (** ** input: party r expects a dealing from p exactly when p deals to r *)
 Theorem C07_input_matched :
@@ -203,13 +189,22 @@ Proof. vm_compute. auto. Qed.
 (** transfer: the three forms on 3 parties *)
 Example C07_transfer_nonvacuous :
   map (my_senders (Bip [2; 0] [1; 2])) [0; 1; 2] = [[]; [2; 0]; [2; 0]] /\
-  map (my_receivers (Bip [2; 0] [1; 2])) [0; 1; 2] = [Some [1; 2]; Some []; Some [1; 2]] /\
+  map (my_receivers (Bip [2; 0] [1; 2])) [0; 1; 2] = [[1; 2]; []; [1; 2]] /\
   map (my_senders (Dict [(2, [0; 1]); (0, [1]); (1, [])])) [0; 1; 2] = [[2]; [2; 0]; []] /\
-  map (my_receivers (Dict [(2, [0; 1]); (0, [1]); (1, [])])) [0; 1; 2] = [Some [1]; Some []; Some [0; 1]] /\
+  map (my_receivers (Dict [(2, [0; 1]); (0, [1]); (1, [])])) [0; 1; 2] = [[1]; []; [0; 1]] /\
   map (my_senders (Pairs [(0, 1); (2, 1); (1, 1)])) [0; 1; 2] = [[]; [0; 2; 1]; []] /\
-  map (transfer_result (fun i => i) (Dict [(0, [1])])) [0; 1; 2] = [Ok []; KeyErr; KeyErr] /\
-  map (transfer_result_int (fun i => i) 0 [1]) [0; 1; 2] = [IndexErr; Ok 0; IndexErr] /\
   map (input_sends 3 [2; 0]) [0; 1; 2] = [[1; 2]; []; [0; 1]] /\ map (input_recvs [2; 0]) [0; 1; 2] = [[2]; [2; 0]; [0]].
+Proof. vm_compute. repeat split. Qed.
+
+(** the two formerly failing call forms (finding F-C07-1/2, repaired), m = 3:
+    transfer(obj, sender_receivers={0: [1]}): party 1 gets [obj_0], parties 0 and 2 get [],
+    only party 0 sends (to 1), parties 1 and 2 (not keys) send nothing;
+    transfer(obj, senders=0, receivers=[1]): party 1 gets obj_0, parties 0 and 2 get None *)
+Example C07_former_failing_forms :
+  map (transfer_result (fun i => i) (Dict [(0, [1])])) [0; 1; 2] = [[]; [0]; []] /\
+  map (transfer_sends (Dict [(0, [1])])) [0; 1; 2] = [[1]; []; []] /\
+  map (transfer_recvs (Dict [(0, [1])])) [0; 1; 2] = [[]; [0]; []] /\
+  map (transfer_result_int (fun i => i) 0 [1]) [0; 1; 2] = [None; Some 0; None].
 Proof. vm_compute. repeat split. Qed.
 
 (** GF(11), m = 5, t = 2: shares of secret 7 under coefficients [3;9] are [8;4;6;3;6];
